@@ -657,7 +657,7 @@ class MPO(MPSGeometry):
 
         grids = []
         for i in range(L):
-            local = None if abs(coeff[i]) < eps else [(op, coeff[i])]
+            local = None if abs(coeff[i]) < eps and i > first_nonzero else [(op, coeff[i])]
             grid = [[upper_left, local], [None, 'Id']]
             if i == 0:
                 grid = grid[:1]  # first row only
